@@ -448,7 +448,7 @@ impl Scenario for C03 {
         }
         // a history of related messages: near-copies of one message, or two
         // different messages that a 32-bit fingerprint cannot tell apart
-        {
+        if ctx.history_this_run() {
             let values: Vec<Value> = if wl.chance(1, 3) {
                 let (x, y, _) = crate::collisions::colliding_pair(&mut wl);
                 let mut v = vec![Value::Msg(x.clone()), Value::Msg(y)];
@@ -955,7 +955,7 @@ impl Scenario for C06 {
             ctx.check::<C06>(&case);
         }
         // related values one after the other
-        {
+        if ctx.history_this_run() {
             let limit = *wl.pick(&[64usize, 300, 1500]);
             let base = if wl.chance(3, 4) { gen_control(&mut wl, &sw, limit) } else { gen_data(&mut wl, &sw) };
             let n = wl.urange(2, 5);
